@@ -44,6 +44,8 @@ pub struct ScenarioReport {
     pub violations: Vec<Replay>,
     pub sample: Option<serde_json::Value>,
     pub fault_free: bool,
+    /// An execution ended in a panic/deadlock/step bound: the process must not run further executions.
+    pub tainted: bool,
 }
 
 fn bump(m: &mut BTreeMap<String, u64>, k: &str, n: u64) {
@@ -157,6 +159,11 @@ pub fn run_scenario(seed: u64, i: u64, tasks: &[Task], tier: &Tier, scratch: &mu
                 });
             }
         }
+        if !matches!(run.result.status, anthem_simrt::sched::ExecStatus::Returned | anthem_simrt::sched::ExecStatus::MainErr(_)) {
+            // a panic or an aborted execution may leave coroutine state behind: stop here, the worker re-executes itself
+            rep.tainted = true;
+            break;
+        }
         if k == execs - 1 && rep.sample.is_none() {
             rep.sample = Some(sample_json(&case, &prep, &run, &facts, seed, i, k, &spec));
         }
@@ -262,6 +269,29 @@ pub fn replay(r: &Replay, scratch: &mut Scratch, keep_log: bool) -> (Vec<Violati
     (violations, digest, run)
 }
 
+#[derive(Serialize, Deserialize)]
+pub struct TryOut {
+    pub violations: Vec<Violation>,
+    pub digest: String,
+    pub decisions: Vec<u32>,
+}
+
+/// One re-execution in a process of its own (an execution that panics must not share a process with the next one).
+pub fn replay_in_fresh_process(r: &Replay, scratch: &mut Scratch) -> (Vec<Violation>, String, Vec<u32>) {
+    let dir = scratch.fresh_dir("try");
+    let f = dir.join("candidate.json");
+    std::fs::write(&f, serde_json::to_string(r).unwrap()).unwrap();
+    let out = std::process::Command::new(std::env::current_exe().unwrap()).args(["c10-try", f.to_str().unwrap()]).output();
+    let _ = std::fs::remove_dir_all(&dir);
+    match out {
+        Ok(o) => match serde_json::from_slice::<TryOut>(&o.stdout) {
+            Ok(t) => (t.violations, t.digest, t.decisions),
+            Err(_) => (vec![Violation { class: "abort".into(), detail: format!("re-execution ended with {:?}", o.status) }], String::new(), vec![]),
+        },
+        Err(e) => crate::harness_error(&format!("cannot start c10-try: {e}")),
+    }
+}
+
 fn same_class(vs: &[Violation], class: &str) -> Option<Violation> {
     vs.iter().find(|v| v.class == class).cloned()
 }
@@ -272,8 +302,8 @@ pub fn minimise(mut r: Replay, scratch: &mut Scratch) -> Replay {
     let tries = std::cell::Cell::new(0u32);
     let attempt = |cand: &Replay, scratch: &mut Scratch| -> Option<(Violation, String, Vec<u32>)> {
         tries.set(tries.get() + 1);
-        let (vs, digest, run) = replay(cand, scratch, false);
-        same_class(&vs, &class).map(|v| (v, digest, run.result.trace.decisions.clone()))
+        let (vs, digest, decisions) = replay_in_fresh_process(cand, scratch);
+        same_class(&vs, &class).map(|v| (v, digest, decisions))
     };
     macro_rules! try_keep {
         ($cand:expr) => {{
@@ -404,15 +434,14 @@ pub fn minimise(mut r: Replay, scratch: &mut Scratch) -> Replay {
         let _ = try_keep!(c);
     }
     // 5. pin the final schedule as an explicit decision list
-    let (vs, digest, run) = replay(&r, scratch, false);
+    let (vs, digest, decisions) = replay_in_fresh_process(&r, scratch);
     if let Some(v) = same_class(&vs, &class) {
         r.sched_note();
         r.violation = v;
         r.digest = digest;
-        let decisions = run.result.trace.decisions.clone();
         let mut pinned = r.clone();
         pinned.sched = SchedSpec::Replay { decisions };
-        let (vs2, d2, _) = replay(&pinned, scratch, false);
+        let (vs2, d2, _) = replay_in_fresh_process(&pinned, scratch);
         if same_class(&vs2, &class).is_some() && d2 == r.digest {
             r = pinned;
         }
